@@ -352,9 +352,10 @@ def find_urls(data: bytes) -> list[Node]:
             if close > -1:
                 end = start + close
                 group = group[:close]
-        if not is_url(group):
-            continue
         url, obfuscation = normalize_percent_encoding(group)
+        # Validate the normalized url, it is the text that is reported and split into parts
+        if not is_url(url):
+            continue
         # The parts are children of the normalized url, so they have to index into it and not into the raw text
         out.append(Node(URL_TYPE, url, obfuscation, start, end, children=parse_url(url)))
     return out
